@@ -33,6 +33,7 @@ from icalendar.timezone import TZP, tzp
 from icalendar.prop import TypesFactory, vDDDLists, vDDDTypes, vDuration, vText
 from icalendar.timezone import tzp
 from icalendar.tools import is_date
+from icalendar import _verif
 
 if TYPE_CHECKING:
     from icalendar.alarms import Alarms
@@ -424,8 +425,12 @@ class Component(CaselessDict):
                 # as broken and skip the line. otherwise raise.
                 component = stack[-1] if stack else None
                 if not component or not component.ignore_exceptions:
+                    if _verif.ENABLED:
+                        _verif.emit("junk-raise", line=str(line), depth=len(stack), comps=len(comps))
                     raise
                 component.errors.append((None, str(e)))
+                if _verif.ENABLED:
+                    _verif.emit("junk-skip", line=str(line), depth=len(stack), comps=len(comps))
                 continue
 
             uname = name.upper()
@@ -443,12 +448,16 @@ class Component(CaselessDict):
                 if not getattr(component, 'name', ''):  # undefined components
                     component.name = c_name
                 stack.append(component)
+                if _verif.ENABLED:
+                    _verif.emit("begin", line=str(line), depth=len(stack), comps=len(comps))
             # check for end of event
             elif uname == 'END':
                 # we are done adding properties to this component
                 # so pop it from the stack and add it to the new top.
                 if not stack:
                     # The stack is currently empty, the input must be invalid
+                    if _verif.ENABLED:
+                        _verif.emit("end-raise", line=str(line), depth=0, comps=len(comps))
                     raise ValueError('END encountered without an accompanying BEGIN!')
 
                 component = stack.pop()
@@ -456,6 +465,8 @@ class Component(CaselessDict):
                     comps.append(component)
                 else:
                     stack[-1].add_component(component)
+                if _verif.ENABLED:
+                    _verif.emit("end", line=str(line), depth=len(stack), comps=len(comps))
                 if vals.upper() == 'VTIMEZONE' and 'TZID' in component \
                         and isinstance(component, Timezone):
                     try:
@@ -474,8 +485,12 @@ class Component(CaselessDict):
                     # only accept X-COMMENT at the end of the .ics file
                     # ignore these components in parsing
                     if uname == 'X-COMMENT':
+                        if _verif.ENABLED:
+                            _verif.emit("xcomment-stop", line=str(line), depth=0, comps=len(comps))
                         break
                     else:
+                        if _verif.ENABLED:
+                            _verif.emit("noparent-raise", line=str(line), depth=0, comps=len(comps))
                         raise ValueError(f'Property "{name}" does not have a parent component.')
                 datetime_names = ('DTSTART', 'DTEND', 'RECURRENCE-ID', 'DUE',
                                   'RDATE', 'EXDATE')
@@ -492,12 +507,18 @@ class Component(CaselessDict):
                         parsed_components = [factory(factory.from_ical(vals))]
                 except ValueError as e:
                     if not component.ignore_exceptions:
+                        if _verif.ENABLED:
+                            _verif.emit("prop-raise", line=str(line), depth=len(stack), comps=len(comps))
                         raise
                     component.errors.append((uname, str(e)))
+                    if _verif.ENABLED:
+                        _verif.emit("prop-error", line=str(line), depth=len(stack), comps=len(comps))
                 else:
                     for parsed_component in parsed_components:
                         parsed_component.params = params
                         component.add(name, parsed_component, encode=0)
+                    if _verif.ENABLED:
+                        _verif.emit("prop", line=str(line), depth=len(stack), comps=len(comps))
 
         if multiple:
             return comps
